@@ -89,7 +89,10 @@ def ofJCells (cells : List JCell) : Except Err (List JCell) :=
 
 /-! ## ISO dates: `strftime("%Y-%m-%d")` and `strptime(s, "%Y-%m-%d")` -/
 
-def digitChar (n : Nat) : Char := Char.ofNat (48 + n % 10)
+def digitChar (n : Nat) : Char :=
+  match n % 10 with
+  | 0 => '0' | 1 => '1' | 2 => '2' | 3 => '3' | 4 => '4'
+  | 5 => '5' | 6 => '6' | 7 => '7' | 8 => '8' | _ => '9'
 
 def pad2 (n : Nat) : List Char := [digitChar (n / 10), digitChar n]
 
